@@ -779,7 +779,8 @@ class err_st(err_node):
         @type src: L{X12file<x12file.X12Reader>}
         """
         self.seg_data = seg_data
-        self.trn_set_control_num = src.get_st_id()
+        # an ST without ST02 still has to be acknowledged (with an empty AK202)
+        self.trn_set_control_num = src.get_st_id() or ''
         self.cur_line_st = src.get_cur_line()
         self.cur_line_se = None
         self.trn_set_id = seg_data.get_value('ST01')
